@@ -6,8 +6,9 @@ import sys
 sys.path.insert(0, os.path.dirname(os.path.abspath(__file__)))
 import common  # noqa: E402
 
-GENERATORS = {'gen_c16': 'NautilusVerif/Generated/C16.lean'}
-MODULES = ['NautilusVerif.Properties.C16']
+GENERATORS = {'gen_c16': 'NautilusVerif/Generated/C16.lean', 'gen_c14': 'NautilusVerif/Generated/C14.lean'}
+MODULES = ['NautilusVerif.Driver.All', 'NautilusVerif.Properties.C16', 'NautilusVerif.Properties.C14',
+           'NautilusVerif.Properties.C15']
 
 
 def main():
